@@ -6,6 +6,10 @@ package c16
 import (
 	"context"
 	"errors"
+	"io"
+
+	"google.golang.org/grpc/codes"
+	"google.golang.org/grpc/status"
 	"sort"
 	"sync"
 	"time"
@@ -26,6 +30,29 @@ var errRefused = errors.New("scripted discovery server: stream refused")
 
 type nsReq struct {
 	reply chan *fakeStream // nil: refused
+	err   error
+}
+
+// failureKinds are the ways a signalled failure can look to the client (Discovery.tla Kinds).
+var failureKinds = []string{"Canceled", "DeadlineExceeded", "Unavailable", "Internal", "ResourceExhausted", "EOF"}
+
+// errOfKind is the error a stream (or its creation) fails with.
+func errOfKind(kind string) error {
+	switch kind {
+	case "Canceled":
+		return status.Error(codes.Canceled, "scripted discovery server: stream cancelled by the server")
+	case "DeadlineExceeded":
+		return status.Error(codes.DeadlineExceeded, "scripted discovery server: deadline exceeded")
+	case "Internal":
+		return status.Error(codes.Internal, "scripted discovery server: internal error")
+	case "ResourceExhausted":
+		return status.Error(codes.ResourceExhausted, "scripted discovery server: resource exhausted")
+	case "EOF":
+		return io.EOF
+	case "Unavailable":
+		return status.Error(codes.Unavailable, "scripted discovery server: unavailable")
+	}
+	return errBroken
 }
 
 type sendReq struct {
@@ -48,6 +75,7 @@ type fakeServer struct {
 	nsReqs   int
 	// a failure has been injected and the client has not asked for a new stream since
 	retryOutstanding bool
+	lastFailKind     string
 	activity         int
 	lastActivity     time.Time
 	changed          chan struct{}
@@ -62,7 +90,8 @@ type fakeStream struct {
 	srv      *fakeServer
 	id       int
 	broken   bool
-	silent   bool // no longer reaches the server; Send returns nil, Recv keeps blocking
+	silent   bool  // no longer reaches the server; Send returns nil, Recv keeps blocking
+	err      error // what Recv / Send return once broken
 	brokenCh chan struct{}
 	msgs     []msg
 }
@@ -122,6 +151,9 @@ func (f *fakeServer) maker(ctx context.Context) (config.VerifSvcStream, error) {
 	select {
 	case st := <-req.reply:
 		if st == nil {
+			if req.err != nil {
+				return nil, req.err
+			}
 			return nil, errRefused
 		}
 		return st, nil
@@ -131,7 +163,10 @@ func (f *fakeServer) maker(ctx context.Context) (config.VerifSvcStream, error) {
 }
 
 // answerNSLocked answers the pending stream creation.
-func (f *fakeServer) answerNSLocked(ok bool) bool {
+func (f *fakeServer) answerNSLocked(ok bool) bool { return f.answerNSKindLocked(ok, "") }
+
+// answerNSKindLocked answers the pending stream creation; a refusal carries the error of the given kind.
+func (f *fakeServer) answerNSKindLocked(ok bool, kind string) bool {
 	req := f.pendNS
 	if req == nil {
 		return false
@@ -141,7 +176,11 @@ func (f *fakeServer) answerNSLocked(ok bool) bool {
 		req.reply <- f.openLocked()
 	} else {
 		f.retryOutstanding = true
-		f.logLocked("nsFail")
+		f.lastFailKind = kind
+		if kind != "" {
+			req.err = errOfKind(kind)
+		}
+		f.logLocked("nsFail", "code", kind)
 		req.reply <- nil
 	}
 	return true
@@ -159,6 +198,9 @@ func (f *fakeServer) deliverLocked(st *fakeStream, m msg, lossy bool) error {
 			return nil
 		}
 		f.logLocked("sendErr", "sub", m.Sub, "unsub", m.Unsub, "stream", st.id)
+		if st.err != nil {
+			return st.err
+		}
 		return errBroken
 	}
 	st.msgs = append(st.msgs, m)
@@ -184,6 +226,12 @@ func (st *fakeStream) Send(subscribed, unsubscribed []string) error {
 
 func (st *fakeStream) Recv() error {
 	<-st.brokenCh
+	st.srv.mu.Lock()
+	err := st.err
+	st.srv.mu.Unlock()
+	if err != nil {
+		return err
+	}
 	return errBroken
 }
 
@@ -199,14 +247,21 @@ func (f *fakeServer) releaseSendLocked(lossy bool) bool {
 }
 
 // failStreamLocked breaks the current stream.
-func (f *fakeServer) failStreamLocked() bool {
+func (f *fakeServer) failStreamLocked() bool { return f.failStreamKindLocked("") }
+
+// failStreamKindLocked breaks the current stream; Recv and Send fail with the error of the given kind.
+func (f *fakeServer) failStreamKindLocked(kind string) bool {
 	if f.cur == nil || f.cur.broken {
 		return false
 	}
 	f.cur.broken = true
+	if kind != "" {
+		f.cur.err = errOfKind(kind)
+	}
 	close(f.cur.brokenCh)
 	f.retryOutstanding = true
-	f.logLocked("fail", "stream", f.cur.id)
+	f.lastFailKind = kind
+	f.logLocked("fail", "stream", f.cur.id, "code", kind)
 	return true
 }
 
